@@ -1,8 +1,198 @@
 package main
 
-import "fmt"
+// go/ast instrumenter for native replay of schedules: rewrites the lock,
+// go, timer and (for the heartbeat) channel operations of /repo's spine and
+// model packages into calls of the verifrt scheduler, which is a twin of the
+// engine's. The instrumented files exist only in the overlay of the replay
+// build; with no scheduler installed every inserted call is a pass-through.
 
-// instrumentForSchedule is replaced by the go/ast instrumenter (instrument_ast.go) once schedule replay is wired.
-func instrumentForSchedule(repo, pkg, work string) (map[string]string, error) {
-	return nil, fmt.Errorf("schedule instrumentation not available")
+import (
+	"bytes"
+	"go/ast"
+	"go/format"
+	"go/parser"
+	"go/token"
+	"os"
+	"path/filepath"
+	"strconv"
+	"strings"
+)
+
+const rtImport = "github.com/enbility/spine-go/verifrt"
+
+func iSel(x ast.Expr, name string) *ast.SelectorExpr {
+	return &ast.SelectorExpr{X: x, Sel: ast.NewIdent(name)}
+}
+func iRT(name string) ast.Expr { return iSel(ast.NewIdent("verifrt"), name) }
+func iCall(fn ast.Expr, args ...ast.Expr) ast.Stmt {
+	return &ast.ExprStmt{X: &ast.CallExpr{Fun: fn, Args: args}}
+}
+func iAddr(x ast.Expr) ast.Expr { return &ast.UnaryExpr{Op: token.AND, X: x} }
+
+func iMethodCall(e ast.Expr, names ...string) (ast.Expr, string, bool) {
+	c, ok := e.(*ast.CallExpr)
+	if !ok || len(c.Args) != 0 {
+		return nil, "", false
+	}
+	s, ok := c.Fun.(*ast.SelectorExpr)
+	if !ok {
+		return nil, "", false
+	}
+	for _, n := range names {
+		if s.Sel.Name == n {
+			return s.X, n, true
+		}
+	}
+	return nil, "", false
+}
+
+type instr struct{ used bool }
+
+func (in *instr) rewriteList(list []ast.Stmt) []ast.Stmt {
+	var out []ast.Stmt
+	for _, st := range list {
+		switch s := st.(type) {
+		case *ast.ExprStmt:
+			if x, n, ok := iMethodCall(s.X, "Lock", "RLock"); ok {
+				in.used = true
+				rd := ast.NewIdent("false")
+				if n == "RLock" {
+					rd = ast.NewIdent("true")
+				}
+				out = append(out, iCall(iRT("BeforeLock"), iAddr(x), rd), st, iCall(iRT("AfterLock"), iAddr(x), rd))
+				continue
+			}
+			if x, n, ok := iMethodCall(s.X, "Unlock", "RUnlock"); ok {
+				in.used = true
+				rd := ast.NewIdent("false")
+				if n == "RUnlock" {
+					rd = ast.NewIdent("true")
+				}
+				out = append(out, st, iCall(iRT("AfterUnlock"), iAddr(x), rd))
+				continue
+			}
+		case *ast.DeferStmt:
+			if x, n, ok := iMethodCall(s.Call, "Unlock", "RUnlock"); ok {
+				in.used = true
+				rd := ast.NewIdent("false")
+				if n == "RUnlock" {
+					rd = ast.NewIdent("true")
+				}
+				out = append(out, &ast.DeferStmt{Call: &ast.CallExpr{Fun: iRT("DeferredUnlock"), Args: []ast.Expr{iAddr(x), s.Call.Fun, rd}}})
+				continue
+			}
+		case *ast.GoStmt:
+			in.used = true
+			var pre []ast.Stmt
+			fn := ast.NewIdent("vrF")
+			pre = append(pre, &ast.AssignStmt{Lhs: []ast.Expr{fn}, Tok: token.DEFINE, Rhs: []ast.Expr{s.Call.Fun}})
+			var args []ast.Expr
+			for i, a := range s.Call.Args {
+				id := ast.NewIdent("vrA" + strconv.Itoa(i))
+				pre = append(pre, &ast.AssignStmt{Lhs: []ast.Expr{id}, Tok: token.DEFINE, Rhs: []ast.Expr{a}})
+				args = append(args, id)
+			}
+			lit := &ast.FuncLit{Type: &ast.FuncType{Params: &ast.FieldList{}}, Body: &ast.BlockStmt{List: []ast.Stmt{&ast.ExprStmt{X: &ast.CallExpr{Fun: fn, Args: args}}}}}
+			pre = append(pre, iCall(iRT("GoStmt"), lit))
+			out = append(out, &ast.BlockStmt{List: pre})
+			continue
+		}
+		out = append(out, st)
+	}
+	return out
+}
+
+func instrumentFile(src, dst string) (bool, error) {
+	fset := token.NewFileSet()
+	f, err := parser.ParseFile(fset, src, nil, parser.ParseComments)
+	if err != nil {
+		return false, err
+	}
+	in := &instr{}
+	ast.Inspect(f, func(n ast.Node) bool {
+		switch b := n.(type) {
+		case *ast.BlockStmt:
+			b.List = in.rewriteList(b.List)
+		case *ast.CaseClause:
+			b.Body = in.rewriteList(b.Body)
+		case *ast.CommClause:
+			b.Body = in.rewriteList(b.Body)
+		case *ast.CallExpr:
+			if s, ok := b.Fun.(*ast.SelectorExpr); ok {
+				if id, ok := s.X.(*ast.Ident); ok && id.Name == "time" && s.Sel.Name == "AfterFunc" {
+					in.used = true
+					b.Fun = iRT("AfterFunc")
+				} else if s.Sel.Name == "Stop" && len(b.Args) == 0 {
+					// timer.Stop() -> verifrt.StopTimer(timer) (other types fall through to their own Stop)
+					in.used = true
+					b.Args = []ast.Expr{s.X}
+					b.Fun = iRT("StopTimer")
+				}
+			}
+		}
+		return true
+	})
+	if !in.used {
+		return false, nil
+	}
+	imp := &ast.ImportSpec{Path: &ast.BasicLit{Kind: token.STRING, Value: strconv.Quote(rtImport)}}
+	added := false
+	for _, d := range f.Decls {
+		if g, ok := d.(*ast.GenDecl); ok && g.Tok == token.IMPORT {
+			for _, sp := range g.Specs {
+				if sp.(*ast.ImportSpec).Path.Value == strconv.Quote(rtImport) {
+					added = true
+				}
+			}
+			if !added {
+				g.Specs = append(g.Specs, imp)
+				added = true
+			}
+			break
+		}
+	}
+	if !added {
+		f.Decls = append([]ast.Decl{&ast.GenDecl{Tok: token.IMPORT, Specs: []ast.Spec{imp}}}, f.Decls...)
+	}
+	var buf bytes.Buffer
+	if err := format.Node(&buf, fset, f); err != nil {
+		return false, err
+	}
+	return true, os.WriteFile(dst, buf.Bytes(), 0o644)
+}
+
+// instrumentForSchedule instruments spine and model (current source, with the
+// extra overlay applied) and returns the overlay entries for the replay build.
+func instrumentForSchedule(repo, pkg, work string, extra map[string]string) (map[string]string, error) {
+	out := map[string]string{}
+	for _, p := range []string{"spine", "model"} {
+		files, _ := filepath.Glob(filepath.Join(repo, p, "*.go"))
+		seen := map[string]bool{}
+		for _, f := range files {
+			seen[f] = true
+		}
+		for virt := range extra {
+			if filepath.Dir(virt) == filepath.Join(repo, p) && !seen[virt] && !strings.Contains(virt, "zz_verif_") {
+				files = append(files, virt)
+			}
+		}
+		for _, f := range files {
+			if strings.HasSuffix(f, "_test.go") {
+				continue
+			}
+			src := f
+			if real, ok := extra[f]; ok {
+				src = real
+			}
+			dst := filepath.Join(work, "inst_"+p+"_"+filepath.Base(f))
+			ok, err := instrumentFile(src, dst)
+			if err != nil {
+				return nil, err
+			}
+			if ok {
+				out[f] = dst
+			}
+		}
+	}
+	return out, nil
 }
